@@ -319,6 +319,15 @@ func (c *Cmt) recheck(n *Node) {
 		}
 		if err == nil && resp != nil && resp.Code == 0 {
 			keep = append(keep, tx)
+			// C10, recheck mode: what stays in the mempool is still admissible for the new state
+			if cur := c.w.view(); cur != nil && cur.Height == c.Height {
+				c.w.Stats.OracleEvals["C10"]++
+				if dtx, derr := c.w.decodeTx(tx); derr == nil {
+					if ok, why := c.w.admissible(dtx, cur.Relayer.Relayer.Proposer, c.Height, false, false); !ok {
+						c.w.violate("C10", "inadmissible-tx-kept-on-recheck", why, "height %d node %d: a mempool transaction (%s) passed the recheck although: %s", c.Height, n.ID, txSummary(c.w, tx), why)
+					}
+				}
+			}
 		}
 	}
 	n.CmtPool = keep
